@@ -104,8 +104,12 @@ def compare(ctx, sub, tail, seed, cap, nsamples, cli_seed=None, prelude=()):
         p = r.random()
         pool.append({v for v in range(1, na + 1) if r.random() < p})
     found = []
-    for t in pool:
-        a, b = eval_formula(A, t), eval_formula(B, t)
+    big = len(A) > 20000
+    if big:
+        from ..refmodels.names import eval_many
+        va_, vb_ = eval_many(A, pool), eval_many(B, pool)      # one pass over the clauses for all assignments
+    for j_, t in enumerate(pool):
+        a, b = (va_[j_], vb_[j_]) if big else (eval_formula(A, t), eval_formula(B, t))
         ctx.count("sampled_assignments")
         if a != b:
             ctx.violation("%s:sampled-models" % sub, "%s: an assignment satisfies the %s but not the %s"
@@ -113,7 +117,7 @@ def compare(ctx, sub, tail, seed, cap, nsamples, cli_seed=None, prelude=()):
             return
         if a:
             found.append(t)
-    for t in found[:5]:
+    for t in found[:5] if not big else []:
         for v in r.sample(range(1, na + 1), min(na, 40)):
             t2 = set(t) ^ {v}
             ctx.count("sampled_assignments")
@@ -153,6 +157,8 @@ def workload(tier, seed):
     nr = len(small()) - len(small(randomized=False))
     for lo in range(0, nr, 25):
         yield "cli_seed", {"lo": lo, "hi": lo + (8 if tier == "quick" else 25)}
+    for which in [["K", 3, 17, "zero"], ["K", 2, 17, "first"], ["K", 1, 17, "zero"], ["X", 17, 18, 3]] + ([] if tier == "quick" else [["K", 2, 18, "zero"], ["X", 18, 19, 2], ["K", 2, 19, "first"]]):
+        yield "wide_parities", {"which": which}
     yield "files", {}
     for i in range(6 if tier == "quick" else 120):
         yield "sessions", {"rseed": seed * 500 + i, "count": 25}
@@ -250,6 +256,34 @@ def case_text(ctx, tails, rseed, quiet=True):
             continue
         ctx.judged(("text", tuple(tail), rseed), nontrivial=n > 0,
                    sample={"argv": tail, "variables": n, "clauses": len(clauses), "opb_rows": len(T.rows), "satisfying_samples": sum(va)})
+
+
+def case_wide_parities(ctx, which):
+    """Parities on 17 and 18 literals (2^16 / 2^17 clauses each), one, two or three of them in one formula: Tseitin on
+    complete bipartite graphs K_{a,17} given as files, and random 17-/18-XOR, through both tools (sampled)."""
+    import os
+    import shutil
+    import tempfile
+    cap = 18 if ctx.tier == "quick" else 22
+    tmp = tempfile.mkdtemp(prefix="c08w-")
+    try:
+        if which[0] == "K":
+            a, b, charge = which[1], which[2], which[3]
+            path = os.path.join(tmp, "K%d_%d.kthlist" % (a, b))
+            with open(path, "w") as f:
+                f.write("%d\n" % (a + b))
+                for u in range(1, a + 1):
+                    f.write("%d : %s 0\n" % (u, " ".join(str(v) for v in range(a + 1, a + b + 1))))
+                for v in range(a + 1, a + b + 1):
+                    f.write("%d : %s 0\n" % (v, " ".join(str(u) for u in range(1, a + 1))))
+            ctx.count("graph_file_pairs")
+            ctx.count("parities_on_17_or_more_literals")
+            compare(ctx, "tseitin", ["tseitin", charge, path], 1, cap, 40)
+        else:
+            ctx.count("parities_on_17_or_more_literals")
+            compare(ctx, "randkxor", ["randkxor", str(which[1]), str(which[2]), str(which[3])], 5, cap, 40)
+    finally:
+        shutil.rmtree(tmp, ignore_errors=True)
 
 
 def case_dimacs_files(ctx, rseed, count):
